@@ -25,6 +25,10 @@ macro_rules! ops {
                 let b = parse_bytes(a[1]);
                 match std::str::from_utf8(&b) { Ok(s) => Some(pres(<$T>::from_str_radix(s, parse_u32(a[0])))), Err(_) => Some("bad-utf8".into()) }
             }
+            "parse_str_radix" => {
+                let b = parse_bytes(a[1]);
+                match std::str::from_utf8(&b) { Ok(s) => Some(<$T>::parse_str_radix(s, parse_u32(a[0])).to_hex()), Err(_) => Some("bad-utf8".into()) }
+            }
             "from_str" => {
                 let b = parse_bytes(a[0]);
                 match std::str::from_utf8(&b) { Ok(s) => Some(pres(<$T as FromStr>::from_str(s))), Err(_) => Some("bad-utf8".into()) }
